@@ -86,9 +86,13 @@ func hostCB(call otto.FunctionCall) otto.Value {
 
 // world is the set of runtimes of one replay.
 type world struct {
-	rts  map[int]*rtm
-	mode string // "" | "copy-as-new" (self-test: a driver that does not copy)
-	st   *stats
+	rts map[int]*rtm
+	// Scripts are immutable values: one compiled Script per (compiling runtime, program) is kept for the
+	// whole replay and submitted again by later "script" steps of that runtime and by "foreign-script"
+	// steps of the other runtimes.
+	scripts map[[2]int]*otto.Script
+	mode    string // "" | "copy-as-new" (self-test: a driver that does not copy)
+	st      *stats
 }
 
 func (w *world) adopt(id int, vm *otto.Otto) {
@@ -111,11 +115,11 @@ func (w *world) close() {
 }
 
 type stats struct {
-	perOp, perRoute                           sync.Map // string -> *int64
-	copies, news                              int64
-	panicsArmed, panicsDelivered, panicsOut   int64
-	panicsCaughtByScript, stepsAfterPanicExit int64
-	runtimeSteps                              int64
+	perOp, perRoute                               sync.Map // string -> *int64
+	copies, news                                  int64
+	panicsArmed, panicsDelivered, panicsOut       int64
+	panicsCaughtByScript, stepsAfterPanicExit     int64
+	runtimeSteps, scriptsReused, sharedScriptRuns int64
 }
 
 func bump(m *sync.Map, k string) {
@@ -160,6 +164,35 @@ func goValue(v map[string]any) (any, error) {
 		}
 	}
 	return nil, fmt.Errorf("unsupported primitive %v", v)
+}
+
+var shared struct {
+	sync.Mutex
+	sc map[int]*otto.Script
+}
+
+func sharedScript(p int) (*otto.Script, error) {
+	shared.Lock()
+	defer shared.Unlock()
+	if sc := shared.sc[p]; sc != nil {
+		return sc, nil
+	}
+	other := otto.New()
+	other.Set("H", hostH) // not registered: logs nothing, never panics
+	other.Set("CB", hostCB)
+	sc, err := other.Compile("", Sources[p-1])
+	if err != nil {
+		return nil, err
+	}
+	func() {
+		defer func() { recover() }()
+		other.Run(sc) // first use on the compiling runtime
+	}()
+	if shared.sc == nil {
+		shared.sc = map[int]*otto.Script{}
+	}
+	shared.sc[p] = sc
+	return sc, nil
 }
 
 // Sources holds the source text of the pool (index p-1).
@@ -221,8 +254,15 @@ func (w *world) apply(a Action, final bool) (obs c01.Obs, abnormal bool, err err
 			case "source":
 				v, e = r.vm.Run(src)
 			case "script":
-				var sc *otto.Script
-				if sc, e = r.vm.Compile("", src); e == nil {
+				sc := w.scripts[[2]int{a.R, a.P}]
+				if sc == nil {
+					if sc, e = r.vm.Compile("", src); e == nil {
+						w.scripts[[2]int{a.R, a.P}] = sc
+					}
+				} else if final {
+					atomic.AddInt64(&w.st.scriptsReused, 1)
+				}
+				if e == nil {
 					v, e = r.vm.Run(sc)
 				}
 			case "program":
@@ -233,16 +273,26 @@ func (w *world) apply(a Action, final bool) (obs c01.Obs, abnormal bool, err err
 					v, e = r.vm.Run(prog)
 				}
 			case "foreign-script":
-				// compiled AND already used on another runtime
-				other := otto.New()
-				other.Set("H", hostH) // not registered: logs nothing, never panics
-				other.Set("CB", hostCB)
+				// a Script another runtime of this replay compiled and ran, if there is one ...
 				var sc *otto.Script
-				if sc, e = other.Compile("", src); e == nil {
-					func() {
-						defer func() { recover() }()
-						other.Run(sc)
-					}()
+				for id := 1; id <= len(w.rts) && sc == nil; id++ {
+					if id != a.R {
+						sc = w.scripts[[2]int{id, a.P}]
+					}
+				}
+				if sc != nil {
+					if final {
+						atomic.AddInt64(&w.st.scriptsReused, 1)
+					}
+					v, e = r.vm.Run(sc)
+					break
+				}
+				// ... else the process-wide Script of this program: compiled once, on a runtime outside
+				// all replays, used there, and since then submitted by every replay worker (concurrently)
+				if sc, e = sharedScript(a.P); e == nil {
+					if final {
+						atomic.AddInt64(&w.st.sharedScriptRuns, 1)
+					}
 					v, e = r.vm.Run(sc)
 				}
 			case "eval":
@@ -304,7 +354,15 @@ func (w *world) apply(a Action, final bool) (obs c01.Obs, abnormal bool, err err
 		}
 		return obs, true, fmt.Errorf("GO PANIC out of the API: %v", escaped)
 	}
-	return c01.MakeObs(r.log, v, e), false, nil
+	o := c01.MakeObs(r.log, v, e)
+	if delivered && len(o.Thr) == 1 && o.Thr[0] == 'v' {
+		// No program of the pool throws a primitive itself or throws a caught value again, so an
+		// uncaught primitive in a run whose host function panicked IS that panic: it has to leave
+		// Run as the Go panic it was (catchPanic re-panics what is not a script value), not be
+		// turned into an error return.
+		return o, false, fmt.Errorf("the host function's panic came back as the error %q of the API call instead of a Go panic", fmt.Sprint(e))
+	}
+	return o, false, nil
 }
 
 // expected strips the `und` flag from the specification's outcome.
@@ -330,7 +388,7 @@ func normal(o c01.Obs) any {
 // Replay puts fresh runtimes into the source state of the line (path), applies the step and
 // compares.  It returns "" when the implementation conforms, else what differs.
 func replay(l *Line, mode string, st *stats) (diff string, observed string, und bool) {
-	w := &world{rts: map[int]*rtm{}, mode: mode, st: st}
+	w := &world{rts: map[int]*rtm{}, scripts: map[[2]int]*otto.Script{}, mode: mode, st: st}
 	defer w.close()
 	w.fresh(1)
 	exitedAbnormally := false
@@ -609,6 +667,8 @@ func Stage(c *core.Ctx, quick bool) (cov map[string]any, err error) {
 		"host_panics_caught_by_script":      st.panicsCaughtByScript,
 		"host_panics_uncaught_out_of_run":   st.panicsOut,
 		"steps_on_runtime_after_panic_exit": st.stepsAfterPanicExit,
+		"compiled_scripts_submitted_again":  st.scriptsReused,
+		"runs_of_the_process_wide_script":   st.sharedScriptRuns,
 		"tlc":                               tlcStats,
 		"model_checked":                     []string{"CopyIsValue", "TotalReplies", "TotalRepliesStep"},
 		"binding_self_test_rejected":        selfCorrupt && selfCopy,
